@@ -41,3 +41,54 @@ theorem exposeSeq_ids_all : ∀ (calls : List Call) (dst : Ns) (c : Nat),
 
 end Full
 end Expose
+
+namespace Expose
+namespace Full
+
+/-! ## left-over options -/
+
+theorem mem_optDel {i : Nat} {kv : Nat × Nat} : ∀ {o : Opts}, kv ∈ optDel i o ↔ kv ∈ o ∧ kv.1 ≠ i
+  | [] => by simp [optDel]
+  | (k, v) :: rest => by
+    have ih := @mem_optDel i kv rest
+    by_cases hk : k = i
+    · subst hk
+      simp only [optDel, if_true, ih, List.mem_cons]
+      constructor
+      · rintro ⟨h1, h2⟩; exact ⟨Or.inr h1, h2⟩
+      · rintro ⟨h1 | h1, h2⟩
+        · subst h1; exact absurd rfl h2
+        · exact ⟨h1, h2⟩
+    · simp only [optDel, hk, if_false, List.mem_cons, ih]
+      constructor
+      · rintro (h | ⟨h1, h2⟩)
+        · subst h; exact ⟨Or.inl rfl, hk⟩
+        · exact ⟨Or.inr h1, h2⟩
+      · rintro ⟨h1 | h1, h2⟩
+        · exact Or.inl h1
+        · exact Or.inr ⟨h1, h2⟩
+
+theorem mem_overloadFrom_left {kv : Nat × Nat} : ∀ (src : Props) (i : Nat) (opts : Opts) (self : Props),
+    kv ∈ (overloadFrom i src opts self).2 ↔ kv ∈ opts ∧ ¬ (i ≤ kv.1 ∧ kv.1 < i + src.length)
+  | [], i, opts, self => by simp [overloadFrom]
+  | s :: rest, i, opts, self => by
+    simp only [overloadFrom, mem_overloadFrom_left rest (i + 1), mem_optDel, List.length_cons]
+    constructor
+    · rintro ⟨⟨h1, h2⟩, h3⟩; exact ⟨h1, by omega⟩
+    · rintro ⟨h1, h2⟩; exact ⟨⟨h1, by omega⟩, by omega⟩
+
+/-- no option is left over iff every option names one of the properties -/
+theorem overload_left_nil (src self : Props) (opts : Opts) :
+    (overload src opts self).2 = [] ↔ ∀ kv ∈ opts, kv.1 < src.length := by
+  rw [List.eq_nil_iff_forall_not_mem]
+  simp only [overload, mem_overloadFrom_left]
+  constructor
+  · intro h kv hkv
+    have := h kv
+    simp only [hkv, true_and, Nat.zero_le, Nat.zero_add] at this
+    exact Classical.not_not.mp this
+  · intro h kv ⟨h1, h2⟩
+    exact h2 ⟨Nat.zero_le _, by simpa using h kv h1⟩
+
+end Full
+end Expose
